@@ -25,7 +25,22 @@ import (
 	"verifharness/vlib"
 )
 
+type schedule struct {
+	name       string
+	phaseLen   int64
+	txPerBlock int
+	byz        bool // keyper 2 is played by the harness: wrong evaluation for keyper 0, false accusation of keyper 0, no apology (keyper 1 is a bystander of both accusations, keyper 0 accuses and apologises)
+}
+
+// schedule 0: one block per round of keyper steps (several transactions per block);
+// schedule 1: every transaction alone in its block (blocks whose only DKG event is a single
+// commitment, evaluation, accusation ...), plus one empty block per round.
+// schedule 2: as schedule 0 with a misbehaving third keyper, so that the run contains accusations
+// and apologies (crash consistency of those handlers).
+var schedules = []schedule{{"block-per-round", 6, 0, false}, {"block-per-transaction", 20, 1, false}, {"block-per-round-with-accusations", 6, 0, true}}
+
 type crashPoint struct {
+	sched  int
 	keyper int
 	kind   pgmem.FaultKind
 	at     int
@@ -34,17 +49,15 @@ type crashPoint struct {
 
 var (
 	points  []crashPoint
-	twin    *outcome
-	censusR [3]int
-	censusC [3][]int // committing round-trip indices per keyper
-	twinErr error
+	twin    [3]*outcome
+	censusR [3][3]int
+	censusC [3][3][]int // committing round-trip indices per keyper
 )
 
 const (
 	nKeypers  = 3
 	thresh    = 2
-	phaseLen  = 6
-	maxRounds = 70
+	maxRounds = 120
 )
 
 func main() {
@@ -58,6 +71,7 @@ func main() {
 			"the crash point between 'shuttermint accepted the broadcast' and 'outbox row deleted' is the crash before the DeleteShutterMessage round trip",
 			"polynomials, nonces, ciphertexts and timestamps are fresh randomness and excluded from the twin comparison; a message re-sent after a crash (at-least-once delivery) may add a second check-in row at a later height, so encryption-key rows are compared as a set of addresses",
 			"Tendermint is replaced by smchain (harness-chosen block boundaries)",
+			"batch-config votes (and the last_batch_config_sent marker) are excluded from the twin comparison: a keyper votes only while the configuration is not yet on chain, so a delayed keyper legitimately skips its vote",
 		},
 		Exhaustive: func(env *vlib.Env) bool { return env.Thorough },
 		Prepare:    prepare,
@@ -67,8 +81,12 @@ func main() {
 			agg.Require("faults_fired", 50)
 			agg.Require("restarts", 50)
 			agg.Require("crash_between_broadcast_and_outbox_delete", 1)
-			agg.Extra["census_round_trips_keyper1"] = censusR[1]
-			agg.Extra["census_committing_round_trips_keyper1"] = len(censusC[1])
+			agg.Require("runs_block-per-round", 50)
+			agg.Require("runs_block-per-transaction", 50)
+			agg.Extra["census_round_trips_keyper1"] = censusR[0][1]
+			agg.Extra["census_committing_round_trips_keyper1"] = len(censusC[0][1])
+			agg.Extra["census_round_trips_keyper1_block_per_transaction"] = censusR[1][1]
+			agg.Extra["census_committing_round_trips_keyper1_block_per_transaction"] = len(censusC[1][1])
 		},
 	})
 }
@@ -77,6 +95,7 @@ func main() {
 type outcome struct {
 	finalDump            [nKeypers]string
 	success              [nKeypers]bool
+	pubKey               [nKeypers]string
 	msgSeq               [nKeypers][]string // first-occurrence order of each keyper's accepted transactions (kind/eon)
 	rounds               int
 	faultFired           bool
@@ -88,26 +107,50 @@ type outcome struct {
 
 func prepare(env *vlib.Env) (int, error) {
 	ctx := context.Background()
-	twin = run(ctx, env, nil)
-	if twin.violation != "" {
-		return 0, fmt.Errorf("crash-free twin run is not clean: %s %v", twin.violation, twin.vdetail)
-	}
 	points = nil
-	keypers := []int{0, 1, 2}
-	for _, k := range keypers {
-		stride := 1
-		for r := 0; r < censusR[k]; r += stride {
-			points = append(points, crashPoint{keyper: k, kind: pgmem.CrashBefore, at: r})
+	for sc := range schedules {
+		twin[sc] = run(ctx, env, sc, nil)
+		if twin[sc].violation != "" {
+			return 0, fmt.Errorf("crash-free twin run (%s) is not clean: %s %v", schedules[sc].name, twin[sc].violation, twin[sc].vdetail)
 		}
-		for _, r := range censusC[k] {
-			points = append(points, crashPoint{keyper: k, kind: pgmem.CrashAfterCommit, at: r})
+		keypers := []int{0, 1, 2}
+		if schedules[sc].byz {
+			keypers = []int{0, 1}
+		}
+		for _, k := range keypers {
+			if !twin[sc].success[k] {
+				return 0, fmt.Errorf("crash-free twin run (%s): keyper %d reports a failed DKG", schedules[sc].name, k)
+			}
+		}
+		if schedules[sc].byz {
+			for _, want := range []string{"accusation", "apology"} {
+				if !strings.Contains(","+strings.Join(twin[sc].msgSeq[0], ",")+",", ","+want+",") {
+					return 0, fmt.Errorf("crash-free twin run (%s): keyper 0 sent no %s: %v", schedules[sc].name, want, twin[sc].msgSeq[0])
+				}
+			}
+		}
+		if sc == 1 && !env.Thorough {
+			keypers = []int{int(env.Seed % 3)}
+		}
+
+		for _, k := range keypers {
+			for r := 0; r < censusR[sc][k]; r++ {
+				points = append(points, crashPoint{sched: sc, keyper: k, kind: pgmem.CrashBefore, at: r})
+			}
+			for _, r := range censusC[sc][k] {
+				points = append(points, crashPoint{sched: sc, keyper: k, kind: pgmem.CrashAfterCommit, at: r})
+			}
 		}
 	}
 	if env.Thorough {
 		rng := vlib.NewRng(env.Seed, 8)
 		for i := 0; i < 1500; i++ {
 			k := rng.Intn(3)
-			a := crashPoint{keyper: k, kind: pgmem.CrashBefore, at: rng.Intn(censusR[k])}
+			sc := rng.Intn(3)
+			if schedules[sc].byz {
+				k = rng.Intn(2)
+			}
+			a := crashPoint{sched: sc, keyper: k, kind: pgmem.CrashBefore, at: rng.Intn(censusR[sc][k])}
 			b := crashPoint{keyper: k, kind: []pgmem.FaultKind{pgmem.CrashBefore, pgmem.CrashAfterCommit}[rng.Intn(2)], at: rng.Intn(120)}
 			a.second = &b
 			points = append(points, a)
@@ -118,8 +161,10 @@ func prepare(env *vlib.Env) (int, error) {
 
 func runCase(env *vlib.Env, idx int, rep *vlib.Reporter) {
 	p := points[idx]
-	o := run(context.Background(), env, &p)
-	desc := fmt.Sprintf("keyper=%d kind=%d at=%d", p.keyper, p.kind, p.at)
+	o := run(context.Background(), env, p.sched, &p)
+	twin := twin[p.sched]
+	desc := fmt.Sprintf("schedule=%s keyper=%d kind=%d at=%d", schedules[p.sched].name, p.keyper, p.kind, p.at)
+	rep.Obs("runs_"+schedules[p.sched].name, 1)
 	if p.second != nil {
 		desc += fmt.Sprintf(" then kind=%d at=%d", p.second.kind, p.second.at)
 	}
@@ -142,9 +187,30 @@ func runCase(env *vlib.Env, idx int, rep *vlib.Reporter) {
 	}
 	// twin comparison
 	for k := 0; k < nKeypers; k++ {
+		if schedules[p.sched].byz && k == 2 {
+			continue
+		}
 		if o.success[k] != twin.success[k] {
 			rep.Violationf("dkg-outcome-differs", map[string]any{"crash": desc, "keyper": k}, "keyper %d reports success=%t, the crash-free run %t", k, o.success[k], twin.success[k])
 			return
+		}
+		if o.pubKey[k] != o.pubKey[0] {
+			rep.Violationf("keypers-disagree-on-eon-key", map[string]any{"crash": desc, "keyper": k}, "keyper %d holds a different eon public key than keyper 0", k)
+			return
+		}
+		if heightsDependOnTiming := schedules[p.sched].txPerBlock > 0; heightsDependOnTiming {
+			// a re-sent or delayed transaction shifts all later heights, and the position of
+			// check-in/block-seen messages relative to DKG messages depends on timing: compare the
+			// DKG messages in order and the rest as a set
+			if got, want := dkgOnly(o.msgSeq[k]), dkgOnly(twin.msgSeq[k]); got != want {
+				rep.Violationf("dkg-messages-differ", map[string]any{"crash": desc, "keyper": k, "got": o.msgSeq[k], "want": twin.msgSeq[k]}, "keyper %d's DKG messages differ from the crash-free run: %s vs %s", k, got, want)
+				return
+			}
+			if got, want := asSet(o.msgSeq[k]), asSet(twin.msgSeq[k]); got != want {
+				rep.Violationf("message-set-differs", map[string]any{"crash": desc, "keyper": k, "got": o.msgSeq[k], "want": twin.msgSeq[k]}, "keyper %d's accepted messages differ from the crash-free run: %s vs %s", k, got, want)
+				return
+			}
+			continue
 		}
 		if o.finalDump[k] != twin.finalDump[k] {
 			rep.Violationf("final-state-differs", map[string]any{"crash": desc, "keyper": k, "diff": firstDiff(o.finalDump[k], twin.finalDump[k])}, "keyper %d ends in a different database state than in the crash-free run", k)
@@ -160,27 +226,63 @@ func runCase(env *vlib.Env, idx int, rep *vlib.Reporter) {
 	}
 }
 
+func dkgOnly(seq []string) string {
+	var out []string
+	for _, l := range seq {
+		if strings.HasPrefix(l, "poly") || strings.HasPrefix(l, "accusation") || strings.HasPrefix(l, "apology") || strings.HasPrefix(l, "dkgresult") {
+			out = append(out, l)
+		}
+	}
+	return strings.Join(out, ",")
+}
+
+func asSet(seq []string) string {
+	c := append([]string(nil), seq...)
+	sort.Strings(c)
+	return strings.Join(c, ",")
+}
+
 func firstDiff(a, b string) string {
 	la, lb := strings.Split(a, "\n"), strings.Split(b, "\n")
+	table := ""
 	for i := 0; i < len(la) && i < len(lb); i++ {
+		if strings.HasPrefix(la[i], "TABLE ") {
+			table = la[i]
+		}
 		if la[i] != lb[i] {
-			return fmt.Sprintf("line %d: %.200s  VS  %.200s", i, la[i], lb[i])
+			return fmt.Sprintf("%s line %d: %.200s  VS  %.200s", table, i, la[i], lb[i])
 		}
 	}
 	return fmt.Sprintf("lengths %d vs %d", len(la), len(lb))
 }
 
 var dumpExclude = []string{
-	"tendermint_sync_meta", "puredkg", "dkg_result.pure_result", "dkg_result.error",
+	"tendermint_sync_meta", "last_batch_config_sent", "puredkg", "dkg_result.pure_result", "dkg_result.error",
 	"poly_evals", "tendermint_encryption_key", "outgoing_eon_keys.eon_public_key", "meta_inf", "tendermint_outgoing_messages.id",
 }
 
-func run(ctx context.Context, env *vlib.Env, cp *crashPoint) *outcome {
+func run(ctx context.Context, env *vlib.Env, sc int, cp *crashPoint) *outcome {
 	o := &outcome{}
-	s, err := dkgsim.NewSim(ctx, env.Seed, nKeypers, thresh, phaseLen, nil)
+	var honest []bool
+	if schedules[sc].byz {
+		honest = []bool{true, true, false}
+	}
+	s, err := dkgsim.NewSim(ctx, env.Seed, nKeypers, thresh, schedules[sc].phaseLen, honest)
 	if err != nil {
 		o.violation, o.vdetail = "setup", map[string]any{"error": err.Error()}
 		return o
+	}
+	s.Chain.TxPerBlock = schedules[sc].txPerBlock
+	var byz *dkgsim.Byz
+	if schedules[sc].byz {
+		byz = s.NewByz(2, dkgsim.Strategy{Commitment: "correct", Eval: map[int]string{0: "wrong", 1: "correct"}, Accuse: 0, Apology: "none", CheckIn: true, Vote: true})
+	}
+	all := s.Keypers
+	var live []*dkgsim.Keyper
+	for _, k := range all {
+		if k != nil {
+			live = append(live, k)
+		}
 	}
 	defer s.Close()
 	fail := func(key string, d map[string]any) {
@@ -189,7 +291,7 @@ func run(ctx context.Context, env *vlib.Env, cp *crashPoint) *outcome {
 		}
 	}
 	// (1) sync position monitor at every commit of every keyper database
-	for _, k := range s.Keypers {
+	for _, k := range live {
 		k := k
 		last := int64(0)
 		k.Node.DB.OnCommit(func(snap *pgmem.Snapshot) {
@@ -221,16 +323,16 @@ func run(ctx context.Context, env *vlib.Env, cp *crashPoint) *outcome {
 	if cp == nil {
 		// census of committing round trips (explicit COMMIT that changed something, or an
 		// auto-commit statement that wrote)
-		for i, k := range s.Keypers {
-			i, k := i, k
-			censusC[i] = nil
+		for _, k := range live {
+			i, k := k.Idx, k
+			censusC[sc][i] = nil
 			k.Node.DB.SetTrace(func(ev pgmem.TraceEvent) {
 				if ev.Incarnation != k.Incarnation() || !ev.Write {
 					return
 				}
 				if ev.Kind == "COMMIT" || ev.TxID == 0 {
-					if n := len(censusC[i]); n == 0 || censusC[i][n-1] != ev.RoundTrip {
-						censusC[i] = append(censusC[i], ev.RoundTrip)
+					if n := len(censusC[sc][i]); n == 0 || censusC[sc][i][n-1] != ev.RoundTrip {
+						censusC[sc][i] = append(censusC[sc][i], ev.RoundTrip)
 					}
 				}
 			})
@@ -258,7 +360,7 @@ func run(ctx context.Context, env *vlib.Env, cp *crashPoint) *outcome {
 	lastFaultRound := -1
 	for round := 0; round < maxRounds; round++ {
 		o.rounds = round + 1
-		for _, k := range s.Keypers {
+		for _, k := range live {
 			sctx, c := context.WithCancel(ctx)
 			cancel = c
 			err := k.Step(sctx)
@@ -295,9 +397,12 @@ func run(ctx context.Context, env *vlib.Env, cp *crashPoint) *outcome {
 				return o
 			}
 		}
+		if byz != nil {
+			byz.Step(ctx)
+		}
 		s.Chain.CloseBlock()
 		done := 0
-		for _, k := range s.Keypers {
+		for _, k := range live {
 			r, err := k.DKGResult(ctx, 1)
 			if err != nil {
 				fail("result-query", map[string]any{"error": err.Error()})
@@ -307,10 +412,10 @@ func run(ctx context.Context, env *vlib.Env, cp *crashPoint) *outcome {
 				done++
 			}
 		}
-		if done == nKeypers && round > lastFaultRound+3 {
+		if done == len(live) && round > lastFaultRound+3 {
 			// let outboxes drain: a few more rounds
 			empty := true
-			for _, k := range s.Keypers {
+			for _, k := range live {
 				if len(k.Node.DB.Snapshot().Rows("tendermint_outgoing_messages")) > 0 {
 					empty = false
 				}
@@ -319,12 +424,13 @@ func run(ctx context.Context, env *vlib.Env, cp *crashPoint) *outcome {
 				break
 			}
 		}
-		if lastFaultRound >= 0 && round > lastFaultRound+25 {
-			fail("not-recovered-within-25-steps-after-the-crash", map[string]any{"round": round})
+		if cp != nil && round > twin[sc].rounds+10 {
+			fail("not-finished-within-10-steps-of-the-crash-free-run", map[string]any{"round": round, "crash_free_rounds": twin[sc].rounds})
 			break
 		}
 	}
-	for i, k := range s.Keypers {
+	for _, k := range live {
+		i := k.Idx
 		if u := k.Node.CheckUnsupported(); u != "" {
 			fail("substrate-unsupported", map[string]any{"what": u})
 		}
@@ -334,6 +440,9 @@ func run(ctx context.Context, env *vlib.Env, cp *crashPoint) *outcome {
 			return o
 		}
 		o.success[i] = r.Success
+		if r.Success && r.Pure != nil && r.Pure.PublicKey != nil {
+			o.pubKey[i] = string(r.Pure.PublicKey.Marshal())
+		}
 		snap := k.Node.DB.Snapshot()
 		if n := len(snap.Rows("tendermint_outgoing_messages")); n > 0 {
 			fail("outbox-not-drained", map[string]any{"keyper": i, "rows": n})
@@ -349,11 +458,12 @@ func run(ctx context.Context, env *vlib.Env, cp *crashPoint) *outcome {
 			fail("encryption-keys-missing", map[string]any{"keyper": i, "known": len(have)})
 		}
 	}
-	judgeChain(s, o, fail)
+	judgeChain(s, o, fail, byz != nil)
 	if cp == nil {
-		for i, k := range s.Keypers {
+		for _, k := range live {
+			i := k.Idx
 			t, _ := k.Node.DB.RoundTrips(k.Incarnation())
-			censusR[i] = t
+			censusR[sc][i] = t
 		}
 		// committing round trips: a second census with a trace
 	}
@@ -363,7 +473,7 @@ func run(ctx context.Context, env *vlib.Env, cp *crashPoint) *outcome {
 // judgeChain checks what the chain received from each keyper.
 var debugLog bool
 
-func judgeChain(s *dkgsim.Sim, o *outcome, fail func(string, map[string]any)) {
+func judgeChain(s *dkgsim.Sim, o *outcome, fail func(string, map[string]any), byz bool) {
 	if debugLog {
 		for _, tx := range s.Chain.Log {
 			fmt.Printf("h=%d k=%d code=%d %s %.80s\n", tx.Height, s.U.AddrIndex(tx.Signer), tx.Deliver.Code, smchain.Kind(smchain.Tx{Signer: 0, Msg: tx.Msg}), tx.Deliver.Log)
@@ -380,7 +490,7 @@ func judgeChain(s *dkgsim.Sim, o *outcome, fail func(string, map[string]any)) {
 			continue
 		}
 		ki := s.U.AddrIndex(tx.Signer)
-		if ki < 0 || ki >= nKeypers {
+		if ki < 0 || ki >= nKeypers || (byz && ki == 2) {
 			continue
 		}
 		kind := smchain.Kind(smchain.Tx{Signer: ki, Msg: tx.Msg})
@@ -418,7 +528,9 @@ func judgeChain(s *dkgsim.Sim, o *outcome, fail func(string, map[string]any)) {
 				}
 			}
 		}
-		if tx.Deliver.Code == 0 {
+		// whether a keyper still votes for a batch config depends on whether the others' votes
+		// already started it (keyper.go handleOnChainKeyperSetChanges): timing, not crash recovery
+		if tx.Deliver.Code == 0 && kind != "batchconfig" {
 			label := kind
 			switch {
 			case tx.Msg.GetPolyCommitment() != nil:
